@@ -33,6 +33,10 @@ def split_args(s):
             cur.append(s[i:j + 1])
             i = j + 1
             continue
+        if s.startswith("=>", i):
+            cur.append("=>")
+            i += 2
+            continue
         if c in "([{<":
             depth += 1
         elif c in ")]}>":
